@@ -64,6 +64,7 @@ impl Scenario for PokClock {
             }
             _ => {
                 p.set("variant", 1);
+                p.set("work_tick_us", if x.chance(1, 3) { 100 } else { 0 });
                 let ti = ((index / 6) % TIMEOUTS.len() as u64) as usize;
                 p.set("timeout_idx", ti as i64);
                 if x.chance(1, 10) {
@@ -290,7 +291,17 @@ impl<'a> World<'a> {
         let cv = sim.local_clock_ns(VERIFIER);
         let e_ns: i128 = cv - (t as i128) * 1_000_000;
         let targ: Vec<u8> = timeout.map(|v| v.to_le_bytes().to_vec()).unwrap_or_default();
+        // "time flows with work": in a part of the runs every heap allocation inside the library call advances the
+        // verifier's clock by 100 us. The statement is about the age of the proof when it is PRESENTED: a verifier that
+        // reads its clock only after doing the work sees the proof older than it was (and may time it out); one that
+        // reads it on entry sees exactly the age the model uses.
+        let tick_ns = self.plan.get("work_tick_us").max(0) as u64 * 1000;
+        kernel::seams::set_work_tick_ns(tick_ns);
+        if tick_ns != 0 {
+            self.rec.fault("time-flows-with-work");
+        }
         let out = self.rec.call(self.lib, self.g, Op::PokTsVerify, &[proof_bytes, pk, pmsg, &targ]);
+        kernel::seams::set_work_tick_ns(0);
         // ---- reference model ----
         #[derive(Debug, PartialEq)]
         enum Exp { Accept, Reject, Either }
